@@ -4,7 +4,7 @@ use core::marker::PhantomData;
 
 use crate::{Field, PrimeField};
 
-use digest::{FixedOutputReset, XofReader};
+use digest::{crypto_common::BlockSizeUser, FixedOutputReset, XofReader};
 use expander::Expander;
 
 use self::expander::ExpanderXmd;
@@ -44,8 +44,8 @@ pub struct DefaultFieldHasher<H: FixedOutputReset + Default + Clone, const SEC_P
     len_per_base_elem: usize,
 }
 
-impl<F: Field, H: FixedOutputReset + Default + Clone, const SEC_PARAM: usize> HashToField<F>
-    for DefaultFieldHasher<H, SEC_PARAM>
+impl<F: Field, H: FixedOutputReset + BlockSizeUser + Default + Clone, const SEC_PARAM: usize>
+    HashToField<F> for DefaultFieldHasher<H, SEC_PARAM>
 {
     fn new(dst: &[u8]) -> Self {
         // The final output of `hash_to_field` will be an array of field
@@ -55,7 +55,10 @@ impl<F: Field, H: FixedOutputReset + Default + Clone, const SEC_PARAM: usize> Ha
         let expander = ExpanderXmd {
             hasher: PhantomData,
             dst: dst.to_vec(),
-            block_size: len_per_base_elem,
+            // `Z_pad` is as long as the input block of the hash function
+            // (`s_in_bytes` in RFC 9380, section 5.3.1), not as the output
+            // length per field element.
+            block_size: H::block_size(),
         };
 
         DefaultFieldHasher {
